@@ -301,6 +301,32 @@ theorem failing_handler_is_local (cap : Nat) (s : DState) (a b : Item) (x : Exc)
   have h2 : (1 : Nat) < cap := by omega
   simp [drun, dstep, h1, h2]
 
+/-! ### delayed operations: a full operation queue is answered, not waited for -/
+
+/-- every request of a burst gets an answer, however many arrive while the handler of an earlier one is still running -/
+theorem burst_all_answered (cap queued n : Nat) : (opBurst cap queued n).length = n := by
+  induction n generalizing queued with
+  | zero => rfl
+  | succ n ih => simp [opBurst, ih]
+
+/-- … Wait while there is room, Fail from then on; the queue never grows beyond its capacity -/
+theorem burst_answers (cap queued n : Nat) (h : queued ≤ cap) :
+    opBurst cap queued n = List.replicate (min n (cap - queued)) .wait ++ List.replicate (n - (cap - queued)) .failed := by
+  induction n generalizing queued with
+  | zero => simp [opBurst]
+  | succ n ih =>
+    simp only [opBurst, handleOperationRequest]
+    by_cases hq : queued < cap
+    · simp only [hq, if_true]
+      rw [ih (queued + 1) (by omega)]
+      have h1 : min (n + 1) (cap - queued) = min n (cap - (queued + 1)) + 1 := by omega
+      have h2 : n + 1 - (cap - queued) = n - (cap - (queued + 1)) := by omega
+      rw [h1, h2, List.replicate_succ, List.cons_append]
+    · simp only [hq, if_false]
+      rw [ih queued h]
+      have h0 : cap - queued = 0 := by omega
+      simp [h0, List.replicate_succ]
+
 /-! ### the readers terminate (C17 model) -/
 
 /-- the chunked reader returns a body or DechunkError for every byte string; the loop bound is never hit -/
